@@ -1002,8 +1002,6 @@ def dt_domain(name, s, e, order, dt, want):
         return False, "bool-bool-arithmetic(numpy boolean algebra)"
     if dt is np.uint8 and name in ("sub", "safesub"):
         return False, "unsigned-subtraction(wraparound)"
-    if name in ("safediv",) and dt not in (np.float64, np.float32) and order == 0:
-        return False, "pending:safediv-integer-divisor"
     if name in ("safesub", "safediv", "reciprocal") and isinstance(b, (int, float)) and kf_region(name, float(a), float(b)):
         return False, "kf-region"
     if name == "safediv" and isinstance(a, float) and isinstance(b, float) and math.isinf(a) and math.isinf(b):
@@ -1080,6 +1078,9 @@ def dtype_grid(ctx, volume=1):
                                 info = np.iinfo(got.dtype)
                                 if not (info.min <= want <= info.max):
                                     ok, why = False, "integer-result-overflow(wraparound)"
+                            if ok and got.dtype == np.float32 and not isinstance(want, bool) and math.isfinite(float(want)) \
+                                    and abs(float(want)) > F32MAX:
+                                ok, why = False, "float32-result-overflow"
                             if not ok:
                                 ctx.count(f"dtype:outside-domain:{why}")
                                 continue
@@ -1103,6 +1104,54 @@ def dtype_grid(ctx, volume=1):
                         if gated:
                             ctx.case(sample=dict(op=name, dtype=dt.__name__, scalar=jv(s), shape=list(shape)) if rng.random() < 0.001 else None,
                                      nontrivial_key=("dtype", name, dt.__name__, shape, repr(s), order, arr.tobytes()))
+    # (float64 array, array of every dtype), both orders: the (array, array) registrations across dtypes
+    # (e.g. _safediv must not take an integer reciprocal of an integer divisor array — /repo 0be2287)
+    for name in DT_BIN:
+        op = get_op(name)
+        for dt in DTYPES:
+            for order in (0, 1):
+                fs = [rng.choice([0.5, -2.5, 0.375, 1.5, 3.0, -1.0, 0.0, 7.0]) for _ in range(6)]
+                es = dt_elements(rng, dt, 6)
+                if not all(dt_guard(name, *((f, e) if order == 0 else (e, f))) for f, e in zip(fs, es)):
+                    continue
+                fa, ea = np.array(fs).reshape(2, 3), np.array(es, dtype=dt).reshape(2, 3)
+                got = call(op, fa, ea) if order == 0 else call(op, ea, fa)
+                if is_exc(got):
+                    ctx.count(f"dtype:array-declines:{name}:{dt.__name__}")
+                    continue
+                got = np.asarray(got)
+                if got.dtype == np.float16 or got.shape != (2, 3):
+                    ctx.count("dtype:outside-domain:float16-promotion-of-small-int-dtype")
+                    continue
+                tol = 1e-6 if (dt is np.float32 or name in DT_TRANSC) else 0.0
+                for f, e, g in zip(fs, ea.ravel().tolist(), got.ravel().tolist()):
+                    want = call(op, f, e) if order == 0 else call(op, e, f)
+                    ok, why = dt_domain(name, f, e, order, dt, want)
+                    if ok and got.dtype == np.float32 and math.isfinite(float(want)) and abs(float(want)) > F32MAX:
+                        ok, why = False, "float32-result-overflow"
+                    if not ok:
+                        ctx.count(f"dtype:outside-domain:{why}")
+                        continue
+                    ctx.count("dtype:array-array-cells")
+                    w, gv = float(want), float(g)
+                    if not (gv == w or (tol and abs(gv - w) <= tol * max(1.0, abs(w)))):
+                        dtn = {np.float64: "np.float64", np.float32: "np.float32", np.int64: "np.int64", np.int32: "np.int32",
+                               np.bool_: "np.bool_", np.uint8: "np.uint8"}[dt]
+                        A = f"np.array([{', '.join(hx(v) for v in fs)}])"
+                        B = f"np.array([{', '.join(hx(v) for v in es)}], dtype={dtn})"
+                        cs = f"ops.{name}(A, B)" if order == 0 else f"ops.{name}(B, A)"
+                        rs = f"ops.{name}(a, b)" if order == 0 else f"ops.{name}(b, a)"
+                        ctx.fail("input", f"C15.dtype-array-array:{name}:{dt.__name__}",
+                                 witness=dict(op=name, dtype=dt.__name__, float_operand=jv(fs), other_operand=jv(es),
+                                              order="float,other" if order == 0 else "other,float", cell=[jv(f), jv(e)]),
+                                 expected=jv(want), got=jv(g),
+                                 python=PRELUDE + f"A = {A}\nB = {B}\ngot = np.asarray({cs})\nprint(got)\nbad = []\n"
+                                 f"for a, b, g in zip(A.tolist(), B.tolist(), got.tolist()):\n"
+                                 f"    w = call(lambda: {rs})\n"
+                                 f"    if isinstance(w, tuple) or isinstance(w, complex) or w != w: continue\n"
+                                 f"    if not (float(g) == float(w) or abs(float(g) - float(w)) <= 1e-6 * max(1.0, abs(float(w)))): bad.append((a, b, g, w))\n"
+                                 f"print(bad)\nFAILS = bool(bad)\n")
+                        break
     # UNITS neutrality on every dtype
     for uop, u in ops.UNITS.items():
         nm = opname(uop)
@@ -1821,7 +1870,8 @@ CLASSIFICATION = {
     "safesub/safediv/reciprocal scalar + (array, Number) variants unstabilised":
         dict(verdict="finding", id=KF, theorem="safesub_unstabilised_witness, safediv_unstabilised_witness, reciprocal_scalar_witness"),
     "log-einsum: shift sum overflows while the log term is -inf -> nan":
-        dict(verdict="finding", id=KF2, theorem="logEinsumDot_overflow_witness; suggested order proved NaN-free: logEinsumDotFixed_never_nan"),
+        dict(verdict="finding (fixed in /repo: numpy_log.einsum now returns sum([result] + shifts); the dedicated stream "
+                     "kf2_stream keeps watching for a regression)", id=KF2, theorem="logEinsumDot_overflow_witness; suggested order proved NaN-free: logEinsumDotFixed_never_nan"),
     "log-einsum: per-operand spread > 745 (e.g. [800,0]·[-800,5] -> -inf, exact 5.0067)":
         dict(verdict="outside-domain", reason="exp(entry - shift) underflows to 0 inside one operand; the stated band of the "
              "log-space einsum is spread < 745 per operand (every exp(entry - shift) > 0); not a limit at -inf nor at the range boundary",
@@ -1834,6 +1884,11 @@ CLASSIFICATION = {
         dict(verdict="outside-domain", reason="the divisor domain is +0, positive or +inf (linear-space measures); 1/-0 = -inf is not clipped "
              "(only the upper bound is) and 0 * -inf = nan; characterised exactly",
              theorem="safediv_nan_iff, safediv_never_nan"),
+    "safediv(x, integer-dtype divisor array) used an integer reciprocal (0 for |y| > 1)":
+        dict(verdict="finding (fixed in /repo 0be2287; gated in the clean dtype grid, scalar×array and array×array)",
+             theorem="(grid) — the model's safediv composition is over the float carrier the fixed code converts to"),
+    "ops.reciprocal(integer array) raises ValueError":
+        dict(verdict="decline", reason="fail-stop; counted as agree:array-declines / dtype:array-declines", theorem="-"),
     "safediv(5e-324, 5e-324) = 8.9e-16 (subnormal divisor)":
         dict(verdict="outside-domain", reason="the clipped reciprocal of a subnormal is finfo.max, not 1/y; divisors are 0 or normal",
              theorem="(grid only)"),
